@@ -4,3 +4,6 @@ import Glas.Props.C07
 #print axioms Glas.Props.C07.edits_disjoint
 #print axioms Glas.Props.C07.ren_expr
 #print axioms Glas.Props.C07.alpha_fresh
+#print axioms Glas.Props.C07.alpha_fresh_module
+#print axioms Glas.Props.C07.renFrame_modFrame
+#print axioms Glas.Props.C07.resolve_name_refines_module
